@@ -22,7 +22,10 @@ func prodCampaign(rc *RunCtx, chains, steps int) {
 		k := ci*rc.NShards + rc.Shard
 		start := c07Starts[k%len(c07Starts)]
 		double := k%3 == 1
-		variant := k % 7
+		variant := k % 8
+		if variant == 7 {
+			double = true // a ledger that matches denoms without regard to letter case, so that such deposits go through
+		}
 		e, err := NewProdEngine(rc, double, start, func(gs *ct.GenesisState, cfg *chain.Config) {
 			switch variant {
 			case 1: // body size below a burn message: every deposit fails after the burn
@@ -42,6 +45,9 @@ func prodCampaign(rc *RunCtx, chains, steps int) {
 				cfg.MintDenom = "uusdc45"
 			case 6:
 				cfg.MintDenom = "uusdc496"
+			case 7: // every letter of the alphabet (deposits also spell it in upper case and in alternating case)
+				cfg.MintDenom = "abcdefghijklmnopqrstuvwxyz0"
+				cfg.Fold = true
 			}
 			for i := range gs.TokenMessengerList { // only a genesis file can hold a messenger that is not 32 bytes long
 				if gs.TokenMessengerList[i].DomainId == 2 && k%3 == 0 {
@@ -433,6 +439,9 @@ func init() {
 				if c.Assertions["C06.field."+f] < 500 {
 					miss = append(miss, fmt.Sprintf("field %s compared %d times", f, c.Assertions["C06.field."+f]))
 				}
+			}
+			if c.Matrix["C06_case_variant_deposits"]["accepted"] < 5 {
+				miss = append(miss, fmt.Sprintf("accepted deposits that spell the burn token in another letter case: %d", c.Matrix["C06_case_variant_deposits"]["accepted"]))
 			}
 			if c.Assertions["C06.depev.replacement-burn-token"] < 50 {
 				miss = append(miss, fmt.Sprintf("deposit/replacement event pairs: %d", c.Assertions["C06.depev.replacement-burn-token"]))
